@@ -83,7 +83,7 @@ def run(ctx):
     # (the passive contracts of C05, C06, C09, C14, C20 ride along as extra observation points; which of the package's functions
     #  the pipeline goes through is not a required route)
     ctx.require_events('text-row:objects-with-other-package-in-between', 'pipeline:run', 'recovered:rank1', 'text-row:checked', 'pipeline:band-added-after-listing')
-    ctx.require_regimes('package:over-a-thousand-models', 'mode:2d', 'mode:3d', 'style:v1', 'style:v2', 'exact-plant', 'noisy-plant', 'av0:at-bound', 'av0:interior', 'sources-per-file>1', 'plant:with-unused-or-limit-band', '3d:distance-range-not-in-kpc', 'package:model-without-flux-in-a-band', 'conf:flag-not-lower-case')
+    ctx.require_regimes('cube:monochromatic-band-given-as-wavelength-not-in-micron', 'package:over-a-thousand-models', 'mode:2d', 'mode:3d', 'style:v1', 'style:v2', 'exact-plant', 'noisy-plant', 'av0:at-bound', 'av0:interior', 'sources-per-file>1', 'plant:with-unused-or-limit-band', '3d:distance-range-not-in-kpc', 'package:model-without-flux-in-a-band', 'conf:flag-not-lower-case')
     n_pipe = 10 if ctx.quick else 200
     ip = 0
     tries = 0
@@ -140,7 +140,7 @@ def run(ctx):
             os.rmdir(os.path.join(md, 'convolved'))
         cen = np.array([f.central_wavelength.to(u.micron).value for f in filters])
         lw, lc = gen.make_law_arrays(rng, n=15, lo=0.05, hi=3000.0)
-        law = gen.build_law(lw, lc)
+        law = gen.build_law(lw, lc, wav_unit=[None, u.nm, u.AA, u.cm][(tries // 2) % 4])          # the law's wavelengths may be tabulated in any length unit
         k = O.ext_pattern(lw, lc, cen)
         if np.ptp(k) < 0.05 or np.max(np.abs(k)) > 5:
             ctx.rmdir(d)
@@ -152,6 +152,19 @@ def run(ctx):
             continue
         if zero_model is not None:
             ctx.regime('package:model-without-flux-in-a-band')
+        # cube packages: one more band is a monochromatic one, given to the fitter as a wavelength (a tabulated one, in nm / Angstrom /
+        # mm) instead of a filter name - the cube slice at that wavelength
+        filt_arg = [f.name for f in filters]
+        if style == 'v2' and mode == '2d' and tries % 8 == 2:
+            jm = int(rng.integers(n_w))
+            if np.all(truth.flux[others][:, 0, jm] > 0):
+                wm = float(truth.wav[jm])
+                conv = np.concatenate([conv, truth.flux[:, :, jm][:, :, None]], axis=2)
+                k = np.concatenate([k, O.ext_pattern(lw, lc, np.array([wm]))])
+                cen = np.concatenate([cen, [wm]])
+                filt_arg.append((wm * u.micron).to([u.nm, u.AA, u.mm][(tries // 8) % 3]))
+                nf += 1
+                ctx.regime('cube:monochromatic-band-given-as-wavelength-not-in-micron')
         c09.CUR.update(params={'cols': list(params), 'rows': {names[m]: {c: float(params[c][m]) for c in params} for m in range(n_m)}}, perm=order)
         wit0 = dict(mode=mode, style=style, n_models=n_m, n_filters=nf, table_order=order)
         try:
@@ -249,7 +262,7 @@ def run(ctx):
         out = os.path.join(d, 'fit.out')
         sel = [('A', 0), ('N', 1), ('N', 3), ('F', 1e3), ('D', 1e6)][int(rng.integers(5))]
         oc = bool(rng.random() < 0.5)
-        wit1 = dict(wit0, selector=sel, av_range=(lo, hi), filters=[f.name for f in filters], central=cen, distance_range=dr,
+        wit1 = dict(wit0, selector=sel, av_range=(lo, hi), filters=[str(x_) for x_ in filt_arg], central=cen, distance_range=dr,
                     n_sources=len(plants), output_convolved=oc)
         wsel = [('N', 1), ('N', 3), ('A', 0)][int(rng.integers(3))]
         try:
@@ -259,7 +272,7 @@ def run(ctx):
             dunit = [u.kpc, u.pc, u.cm, u.Mpc][int(rng.integers(4))]
             if mode == '3d' and dunit != u.kpc:
                 ctx.regime('3d:distance-range-not-in-kpc')
-            fit(data, [f.name for f in filters], (theta * u.arcsec).to(aunit), md, out, n_data_min=1,
+            fit(data, filt_arg, (theta * u.arcsec).to(aunit), md, out, n_data_min=1,
                 extinction_law=law, av_range=(lo, hi), distance_range=(dr * u.kpc).to(dunit), output_format=sel, output_convolved=oc)
             fin = FitInfoFile(out, 'r')
             recs = list(fin)
@@ -345,9 +358,9 @@ def run(ctx):
         order2 = list(range(n_m)) if style == 'v2' else list(rng.permutation(n_m))       # (cube packages: the table follows the cube's order)
         pkg.write_parameters(md2, [names[i] for i in order2], {c_: (np.asarray(params[c_]) * 1.37 + 5.0)[order2] for c_ in params})
         try:
-            fA = gen.make_fitter([f.name for f in filters], theta, md, law, (lo, hi), dr, use_memmap=False)
+            fA = gen.make_fitter(filt_arg, theta, md, law, (lo, hi), dr, use_memmap=False)
             infoA = fA.fit(gen.build_source(p0['name'], p0['valid'], p0['flux'], p0['err']))
-            fB = gen.make_fitter([f.name for f in filters], theta, md2, law, (lo, hi), dr, use_memmap=False)
+            fB = gen.make_fitter(filt_arg, theta, md2, law, (lo, hi), dr, use_memmap=False)
             fB.fit(gen.build_source('other', p0['valid'], p0['flux'], p0['err']))
             txt2 = os.path.join(d, 'pars_objects.txt')
             write_parameters(infoA, txt2, select_format=('N', 1))
